@@ -2,8 +2,8 @@ from scoping_common import *
 
 META = {
     "category": "proof",
-    "text": 'Theorem impl_resolver_eq_reference: for EVERY program of a mini-Lua fragment (local with several names/values, assignment, call, local function, function statements incl. dotted names and methods with implicit self, closures with parameters, numeric and generic for, repeat-until, while, do, if/elseif/else, return) and every name use in it, the Gallina transcription of the implementation (the pre-order declaration walk of DeclAnalyzer building LuaDeclarationTree scopes and resolving each name, when the walk enters it, with find_scope / visit_visible_decls / search_scope_children / visit_child_scope) selects exactly the declaration that the reference resolver (environment-passing lexical scoping as the Lua manual states it) selects, or the global. The transcription is tied to the code per run by an exact correspondence (printed text, complete scope tree with kinds/ranges/declarations, reference-index entry of every NameExpr token) and the property is searched directly on the implementation against an independent Rust reference resolver, including SemanticModel::find_decl on every name token.',
-    "note": 'Trusted: Coq kernel; the hand model of decl_tree.rs and analyzer/decl (validated by the correspondence on generated programs, not proved equal to the Rust); the parser on the fragment (token positions are compared per case). The theorem covers the fragment\'s programs printed by the model\'s printer; real-world syntax outside it (goto, attribs, tables, strings, method calls, comments, `_`/`_G`/`_ENV`) is only searched. Axioms: none.',
+    "text": 'Theorem impl_resolver_eq_reference: for EVERY program of a mini-Lua fragment (local with several names/values, local with a <const>/<close> attribute, assignment, call statements, local function, function statements incl. dotted names and methods with implicit self, closures with parameters, numeric and generic for, repeat-until, while, do, if/elseif/else, return, labels and goto; expressions: numbers, strings, names, field access, calls, method calls e:m(args), binary operators, function expressions, table constructors with positional fields) and every name use in it, the Gallina transcription of the implementation (the pre-order declaration walk of DeclAnalyzer building LuaDeclarationTree scopes and resolving each name, when the walk enters it, with find_scope / visit_visible_decls / search_scope_children / visit_child_scope) selects exactly the declaration that the reference resolver (environment-passing lexical scoping as the Lua manual states it) selects, or the global. printer_positions_exact: the positions both resolvers use are the offsets of the printed text; name_text_injective: different names of the model print as different identifiers. The transcription is tied to the code per run by an exact correspondence (printed text, complete scope tree with kinds/ranges/declarations, reference-index entry of every NameExpr token) and the property is searched directly on the implementation against an independent Rust reference resolver, including SemanticModel::find_decl on every name token.',
+    "note": 'Trusted: Coq kernel; the hand model of decl_tree.rs and analyzer/decl (validated by the correspondence on generated programs, not proved equal to the Rust); the parser on the fragment (token positions are compared per case). The theorem covers the fragment\'s programs printed by the model\'s printer; syntax outside it (table fields with keys, string-call/table-call syntax, varargs, comments and doc annotations, `_`/`_G`/`_ENV`, other operators) is only searched through the corpus. Axioms: none.',
     "technique": "Coq proof (simulation between a zipper model of the declaration tree and environment-passing scoping, by mutual induction over the syntax) + exact model-vs-implementation correspondence + differential search against a reference resolver",
 }
 
@@ -11,6 +11,7 @@ THEOREMS = [
     ("impl_resolver_eq_reference", "theorem"),
     ("impl_resolver_eq_reference_at", "theorem"),
     ("printer_positions_exact", "theorem"),
+    ("name_text_injective", "theorem"),
     ("resolver_example", "example"),
 ]
 
